@@ -208,8 +208,14 @@ Definition loop_idle (s : wstate) : Prop := t_pc (get_trig (trigs s) O) = TIdle.
 Lemma pre_link_idle : forall s, loop_idle s -> pre_link (t_pc (get_trig (trigs s) O)).
 Proof. intros s H. unfold loop_idle in H. rewrite H. exact I. Qed.
 
+(* the loop thread's own Trigger slot is idle unless the loop is inside a re-entrant Trigger;
+   doChores is only set while the event batch is being walked *)
+Definition chores_ok (c : cons) : Prop := c_chores c = true -> c_pc c = CTrig /\ c_phase c = PhEvents.
+Definition loop_ok (s : wstate) : Prop := (c_pc (con s) <> CTrig -> loop_idle s) /\ chores_ok (con s).
+
 Lemma run_evs_frame : forall evs s, loop_idle s ->
   let s' := fst (run_evs evs s) in
+  loop_ok s' /\
   w_sh s' = w_sh s /\ w_env s' = w_env s /\
   g_ovf (w_gh s') = g_ovf (w_gh s) /\ g_fault (w_gh s') = g_fault (w_gh s) /\
   n_p1 QU s' = n_p1 QU s /\ n_p1 QL s' = n_p1 QL s /\ n_p2 s' = n_p2 s /\ n_p3 s' = n_p3 s /\
@@ -218,12 +224,14 @@ Lemma run_evs_frame : forall evs s, loop_idle s ->
 Proof.
   induction evs as [|e r IH]; intros s Hidle.
   - cbn [run_evs]. cbn [c_chores c_set_evs]. destruct (c_chores (con s)) eqn:Ech; cbn; splits; try reflexivity.
+    + split; [intros _; exact Hidle | unfold chores_ok; cbn; discriminate].
+    + split; [intros _; exact Hidle | unfold chores_ok; cbn; rewrite Ech; discriminate].
   - destruct e as [|k sc].
     + cbn [run_evs].
       specialize (IH (set_con s (c_set_chores (con s) true))).
       assert (Hi : loop_idle (set_con s (c_set_chores (con s) true))) by exact Hidle.
       specialize (IH Hi). cbn zeta in IH. cbn [set_con w_sh w_env w_gh con c_set_chores c_chores] in IH.
-      destruct IH as (A & B & C & D & E & F & G & H & I1 & I2 & J).
+      destruct IH as (L0 & A & B & C & D & E & F & G & H & I1 & I2 & J).
       cbn zeta. splits; try assumption.
       rewrite J. cbn [has_efd existsb]. rewrite orb_true_r. reflexivity.
     + cbn [run_evs]. destruct (lookup_script (scripts (w_env s)) sc) as [|sp todo] eqn:El.
@@ -236,26 +244,33 @@ Proof.
         destruct (start_trig (set_con s c) O sp) as [s1 o] eqn:Es. cbn [fst] in *.
         destruct Fr as (A & B & C & D & E & F). destruct Cn as (G & H & I1 & J).
         cbn zeta. cbn [fst]. splits; try assumption.
+        -- split; [rewrite B; unfold c; cbn; intro X; congruence | unfold chores_ok; rewrite B; unfold c; cbn; auto].
         -- unfold d_q. rewrite B. reflexivity.
         -- unfold d_q. rewrite B. reflexivity.
         -- unfold cls_of, pendB. rewrite B. cbn. reflexivity.
 Qed.
 
-Lemma resume_frame : forall s, loop_idle s ->
+Lemma resume_frame : forall s, loop_idle s -> (c_chores (con s) = true -> c_phase (con s) = PhEvents) ->
   let s' := fst (resume s) in
+  loop_ok s' /\
   w_sh s' = w_sh s /\ w_env s' = w_env s /\
   g_ovf (w_gh s') = g_ovf (w_gh s) /\ g_fault (w_gh s') = g_fault (w_gh s) /\
   n_p1 QU s' = n_p1 QU s /\ n_p1 QL s' = n_p1 QL s /\ n_p2 s' = n_p2 s /\ n_p3 s' = n_p3 s /\
   d_q QU s' = 0 /\ d_q QL s' = 0 /\
   cls_of s' = (if pendB (con s) then KB else KW).
 Proof.
-  intros s Hidle. unfold resume.
+  intros s Hidle Hch. unfold resume.
+  assert (Hch' : c_phase (con s) <> PhEvents -> c_chores (con s) = false).
+  { intro N. destruct (c_chores (con s)); [exfalso; apply N; apply Hch; reflexivity|reflexivity]. }
   destruct (c_todo (con s)) as [|sp todo] eqn:Et.
   - destruct (c_phase (con s)) eqn:Eph.
     + pose proof (run_evs_frame (c_evs (con s)) s Hidle) as R. cbn zeta in R.
       cbn zeta. unfold pendB. rewrite Eph. exact R.
-    + cbn. splits; try reflexivity. unfold pendB. rewrite Eph. reflexivity.
-    + unfold pendB. rewrite Eph. destruct (c_low (con s) <? e_max (w_env s)); cbn; splits; reflexivity.
+    + cbn. splits; try reflexivity.
+      * split; [intros _; exact Hidle | unfold chores_ok; cbn; rewrite Hch' by discriminate; discriminate].
+      * unfold pendB. rewrite Eph. reflexivity.
+    + unfold pendB. rewrite Eph. destruct (c_low (con s) <? e_max (w_env s)); cbn; splits; try reflexivity;
+        (split; [intros _; exact Hidle | unfold chores_ok; cbn; rewrite Hch' by discriminate; discriminate]).
   - set (c := c_set_pc (c_set_todo (con s) todo) CTrig).
     pose proof (start_trig_frame (set_con s c) O sp) as Fr. cbn zeta in Fr.
     assert (Hpre : pre_link (t_pc (get_trig (trigs (set_con s c)) O))) by (apply pre_link_idle; exact Hidle).
@@ -263,34 +278,40 @@ Proof.
     destruct (start_trig (set_con s c) O sp) as [s1 o] eqn:Es. cbn [fst] in *.
     destruct Fr as (A & B & C & D & E & F). destruct Cn as (G & H & I1 & J).
     cbn zeta. cbn [fst]. splits; try assumption.
+    + split; [rewrite B; unfold c; cbn; intro X; congruence
+             | unfold chores_ok; rewrite B; unfold c; cbn; intro X; split; [reflexivity|apply Hch; exact X]].
     + unfold d_q. rewrite B. reflexivity.
     + unfold d_q. rewrite B. reflexivity.
     + unfold cls_of. rewrite B. cbn. reflexivity.
 Qed.
 
-Lemma exec_task_frame : forall s q x, loop_idle s ->
+Lemma exec_task_frame : forall s q x, loop_idle s -> c_chores (con s) = false ->
   let s' := fst (exec_task s q x) in
+  loop_ok s' /\
   w_sh s' = w_sh s /\
   g_ovf (w_gh s') = g_ovf (w_gh s) /\ g_fault (w_gh s') = g_fault (w_gh s) /\
   n_p1 QU s' = n_p1 QU s /\ n_p1 QL s' = n_p1 QL s /\ n_p2 s' = n_p2 s /\ n_p3 s' = n_p3 s /\
   d_q QU s' = 0 /\ d_q QL s' = 0 /\ cls_of s' = KB.
 Proof.
-  intros s q x Hidle. unfold exec_task.
+  intros s q x Hidle Hch. unfold exec_task.
   assert (Gen : forall e1 trs (o1 : wobs),
     let s1 := set_gh (set_env s e1) (gh_exec (w_gh s) q x (if sp_cb (tk_spec x) then [tk_id x] else []) trs) in
     let c0 := c_set_todo (con s1) (lookup_script (scripts e1) (sp_script (tk_spec x))) in
     let c := match q with QU => c_set_phase c0 PhUrgent | QL => c_set_low (c_set_phase c0 PhLow) (c_low c0 + 1) end in
     let s' := fst (let '(s2, o2) := resume (set_con s1 c) in
                    (s2, EvExec (tk_id x) :: o1 ++ (if sp_cb (tk_spec x) then [EvCb (tk_id x)] else []) ++ o2)) in
+    loop_ok s' /\
     w_sh s' = w_sh s /\
     g_ovf (w_gh s') = g_ovf (w_gh s) /\ g_fault (w_gh s') = g_fault (w_gh s) /\
     n_p1 QU s' = n_p1 QU s /\ n_p1 QL s' = n_p1 QL s /\ n_p2 s' = n_p2 s /\ n_p3 s' = n_p3 s /\
     d_q QU s' = 0 /\ d_q QL s' = 0 /\ cls_of s' = KB).
   { intros e1 trs o1 s1 c0 c s'.
     assert (Hi : loop_idle (set_con s1 c)) by exact Hidle.
-    pose proof (resume_frame (set_con s1 c) Hi) as R. cbn zeta in R.
+    assert (Hc2 : c_chores (con (set_con s1 c)) = true -> c_phase (con (set_con s1 c)) = PhEvents).
+    { unfold c, c0, s1. destruct q; cbn; rewrite Hch; discriminate. }
+    pose proof (resume_frame (set_con s1 c) Hi Hc2) as R. cbn zeta in R.
     unfold s'. destruct (resume (set_con s1 c)) as [s2 o2] eqn:Er. cbn [fst] in *.
-    destruct R as (A & B & C & D & E & F & G & H & I1 & I2 & J).
+    destruct R as (L0 & A & B & C & D & E & F & G & H & I1 & I2 & J).
     splits; try assumption.
     rewrite J. unfold pendB, c. destruct q; reflexivity. }
   destruct (sp_kind (tk_spec x)) as [|c|c].
@@ -298,3 +319,19 @@ Proof.
   - destruct (zmem c (closed (w_env s))); apply Gen.
   - apply Gen.
 Qed.
+
+(* ---- the two "outside the property" flags are only raised by add_len / a faulty write ---- *)
+Lemma gh_link_ovf : forall g q x, g_ovf (gh_link g q x) = g_ovf g. Proof. intros g [] x; reflexivity. Qed.
+Lemma gh_link_fault : forall g q x, g_fault (gh_link g q x) = g_fault g. Proof. intros g [] x; reflexivity. Qed.
+Lemma gh_ret_ovf : forall g i b, g_ovf (gh_ret g i b) = g_ovf g. Proof. reflexivity. Qed.
+Lemma gh_ret_fault : forall g i b, g_fault (gh_ret g i b) = g_fault g. Proof. reflexivity. Qed.
+Lemma gh_begin_ovf : forall g x, g_ovf (gh_begin g x) = g_ovf g. Proof. reflexivity. Qed.
+Lemma gh_begin_fault : forall g x, g_fault (gh_begin g x) = g_fault g. Proof. reflexivity. Qed.
+Lemma gh_exec_ovf : forall g q x a b, g_ovf (gh_exec g q x a b) = g_ovf g. Proof. reflexivity. Qed.
+Lemma gh_exec_fault : forall g q x a b, g_fault (gh_exec g q x a b) = g_fault g. Proof. reflexivity. Qed.
+
+Ltac sane_simpl H :=
+  unfold ret_trig in H;
+  cbn [set_trig set_trigs set_gh set_sh set_con set_env set_cpc w_gh] in H;
+  rewrite ?gh_link_ovf, ?gh_link_fault, ?gh_ret_ovf, ?gh_ret_fault, ?gh_begin_ovf, ?gh_begin_fault,
+          ?gh_exec_ovf, ?gh_exec_fault in H.
